@@ -85,6 +85,10 @@ pub trait Flavour: Sized + 'static {
     /// undirected: find_adjacent()
     fn find_in(u: &Self::Node, k: usize) -> Option<Self::Node>;
     fn sizeof(u: &Self::Node) -> usize;
+    /// `Edge(a.0, a.1, a.2) == Edge(b.0, b.1, b.2)`
+    fn edge_eq(a: &ET<Self::Node>, b: &ET<Self::Node>) -> bool;
+    /// reverse() of an edge, as keys and value
+    fn edge_reverse(a: &ET<Self::Node>) -> (usize, usize, u64);
 
     /// `iter_out()` (undirected: `iter()`); the loop body is `f`, `false` breaks
     fn for_out(u: &Self::Node, f: Step<Self::Node>);
@@ -196,6 +200,17 @@ macro_rules! common_node_items {
         }
         fn sizeof(u: &Self::Node) -> usize {
             u.sizeof()
+        }
+        fn edge_eq(a: &ET<Self::Node>, b: &ET<Self::Node>) -> bool {
+            let ea = gdsl::$m::Edge(a.0.clone(), a.1.clone(), a.2.clone());
+            let eb = gdsl::$m::Edge(b.0.clone(), b.1.clone(), b.2.clone());
+            ea == eb
+        }
+        fn edge_reverse(a: &ET<Self::Node>) -> (usize, usize, u64) {
+            let e = gdsl::$m::Edge(a.0.clone(), a.1.clone(), a.2.clone());
+            assert!(e.source().key() == a.0.key() && e.target().key() == a.1.key() && e.value().0 == (a.2).0);
+            let r = e.reverse();
+            (*r.0.key(), *r.1.key(), (r.2).0)
         }
     };
 }
